@@ -248,6 +248,66 @@ func cmpArray(a *atree.Array, n *Node, path string, o CmpOpts) error {
 	if i != len(n.Elems) {
 		return fmt.Errorf("%s: iteration yields %d elements, model has %d", path, i, len(n.Elems))
 	}
+	// positional access must agree with sequential traversal
+	cnt := uint64(len(n.Elems))
+	for _, idx := range lookupSample(cnt) {
+		v, err := a.Get(idx)
+		if err != nil {
+			return fmt.Errorf("%s: Get(%d) of %d failed: %w", path, idx, cnt, err)
+		}
+		if c := nodeOf(n.Elems[idx]); c != nil {
+			// containers were compared in depth by the traversal above: identity is enough here
+			if err := cmpIdentity(v, c, path+"["+strconv.FormatUint(idx, 10)+"] by position"); err != nil {
+				return err
+			}
+			continue
+		}
+		if err := cmpValue(v, n.Elems[idx], path+"["+strconv.FormatUint(idx, 10)+"] by position", o); err != nil {
+			return err
+		}
+	}
+	return nil
+}
+
+// lookupSample: all positions of small containers, else boundaries plus a deterministic sample.
+func lookupSample(cnt uint64) []uint64 {
+	if cnt == 0 {
+		return nil
+	}
+	if cnt <= 200 {
+		out := make([]uint64, cnt)
+		for i := range out {
+			out[i] = uint64(i)
+		}
+		return out
+	}
+	out := []uint64{0, 1, cnt - 2, cnt - 1, cnt / 2}
+	for i := uint64(0); i < 59; i++ {
+		out = append(out, mix64(cnt*131+i)%cnt)
+	}
+	return out
+}
+
+func cmpIdentity(v atree.Value, c *Node, path string) error {
+	for {
+		s, ok := v.(Some)
+		if !ok {
+			break
+		}
+		v = s.V
+	}
+	switch x := v.(type) {
+	case *atree.Array:
+		if c.IsMap || x.ValueID() != c.VID || x.Count() != uint64(len(c.Elems)) {
+			return fmt.Errorf("%s: got array %s with %d elements, model has container #%d (%s)", path, x.ValueID(), x.Count(), c.ID, describeMV(c))
+		}
+	case *atree.OrderedMap:
+		if !c.IsMap || x.ValueID() != c.VID || x.Count() != uint64(len(c.Ents)) {
+			return fmt.Errorf("%s: got map %s with %d entries, model has container #%d (%s)", path, x.ValueID(), x.Count(), c.ID, describeMV(c))
+		}
+	default:
+		return fmt.Errorf("%s: got %T, model has container #%d", path, v, c.ID)
+	}
 	return nil
 }
 
@@ -293,6 +353,25 @@ func cmpMap(m *atree.OrderedMap, n *Node, path string, o CmpOpts) error {
 	}
 	if len(seen) != len(n.Ents) {
 		return fmt.Errorf("%s: iteration yields %d keys, model has %d", path, len(seen), len(n.Ents))
+	}
+	// keyed access must agree with sequential traversal
+	ks := n.SortedKeys()
+	for _, i := range lookupSample(uint64(len(ks))) {
+		ck := ks[i]
+		e := n.Ents[ck]
+		v, err := m.Get(compareValue, hashInput, keyValue(e.K))
+		if err != nil {
+			return fmt.Errorf("%s: Get(%s) of a present key failed: %w", path, short(ck), err)
+		}
+		if c := nodeOf(e.V); c != nil {
+			if err := cmpIdentity(v, c, path+"{"+short(ck)+"} by key"); err != nil {
+				return err
+			}
+			continue
+		}
+		if err := cmpValue(v, e.V, path+"{"+short(ck)+"} by key", o); err != nil {
+			return err
+		}
 	}
 	return nil
 }
